@@ -1,5 +1,7 @@
 import LcmProofs.Laws
 import LcmProofs.Congr
+import LcmProofs.FuncPerm
+import LcmProofs.EnvPerm
 namespace Lcm
 
 /-! # C10 — equivalent model specifications yield equal solutions (partial)
@@ -42,6 +44,18 @@ function: by-name evaluation reads the environment only through lookups -/
 theorem C10_env_order_irrelevant (m : Model) (P : Params) (g : Groups) (t : Nat)
     (next : Option (Tensor Ext × List (List (Name × Rat)))) (e e' : Env) (h : EnvEq e e') :
     uAndF m P g t next e = uAndF m P g t next e' := uAndF_congr_env m P g t next e e' h
+
+/-- permuting the declaration order of the **functions** does not change the value of any model function (names are
+dict keys, hence distinct): utility, constraints, filters, transitions and auxiliary functions evaluate alike -/
+theorem C10_function_order_irrelevant (m : Model) (fs' : List Func) (hp : m.functions.Perm fs')
+    (hnd : (m.functions.map (·.name)).Nodup) (P : Params) (fuel : Nat) (e : Env) (fname : Name) :
+    callF m P fuel e fname = callF { m with functions := fs' } P fuel e fname :=
+  callF_perm_functions m fs' hp hnd P fuel e fname
+
+/-- permuting the declaration order of the **variables** permutes the (name, value) lists that environments are
+built from; with distinct names no lookup changes -/
+theorem C10_variable_order_irrelevant (a b : List (Name × Rat)) (hp : a.Perm b) (hnd : (a.map (·.1)).Nodup) :
+    EnvEq (toEnv a) (toEnv b) := envEq_of_perm a b hp hnd
 
 /-- the combined filter / constraint is a conjunction: the order of the functions in the dict is irrelevant
 (stated for two restrictions; `allTrue` folds `&&` over the list) -/
